@@ -344,6 +344,31 @@ func (c *Ctx) Eq(a, b *Node) *Node {
 	if a.IsConst() && b.Op == OpIte {
 		return c.Eq(b, a)
 	}
+	if a.IsConst() && !b.IsConst() {
+		a, b = b, a
+	}
+	if b.IsConst() {
+		switch a.Op {
+		case OpAdd:
+			// x + c1 == c2  <=>  x == c2 - c1
+			if a.Args[1].IsConst() {
+				return c.Eq(a.Args[0], c.BV(b.Val-a.Args[1].Val, a.W))
+			}
+		case OpZExt:
+			inner := a.Args[0]
+			if inner.W <= 64 {
+				if b.Val > mask(inner.W) {
+					return c.False
+				}
+				return c.Eq(inner, c.BV(b.Val, inner.W))
+			}
+		case OpConcat:
+			hi, lo := a.Args[0], a.Args[1]
+			if a.W <= 64 {
+				return c.And(c.Eq(hi, c.BV(b.Val>>uint(lo.W), hi.W)), c.Eq(lo, c.BV(b.Val, lo.W)))
+			}
+		}
+	}
 	if a.ID > b.ID {
 		a, b = b, a
 	}
